@@ -1,6 +1,7 @@
 /-
   C02 — Every reported path is a genuine, unvalidated accepting path.
 -/
+import TealerModel.Props.TieSearch
 import TealerModel.Lemmas.Dfs
 namespace Tealer.C02
 
@@ -34,4 +35,16 @@ def shortNotation (p : List Nat) : String := " -> ".intercalate (p.map toString)
 
 example : shortNotation [0, 2, 5] = "0 -> 2 -> 5" := by decide
 
-end Tealer.C02
+/-- THE SEARCH IS THE PYTHON'S.  `search_paths` (the nested function of detect_missing_tx_field_validations: loop cut per
+    activation, validated blocks, leaves and the report condition, the recursion cut, call / return handling, successor
+    order), translated statement by statement from /repo's Python on this run - with the shared result list threaded through -
+    computes exactly what the model `searchPaths` computes, for every fuel, start block, path prefix, call stack and visited
+    lists: the reported paths are the ones already in the list followed by the model's paths that satisfy the report condition,
+    in the same order, and it raises exactly when the model does.  (On graphs whose call sites resolve; in the graph a detector
+    searches a call site is never a `retsub` block and always names its subroutine: `TieS.mkDGraph_calls`.) -/
+theorem C02_tie_search (g : DGraph) (hg : TieS.CallsOK g) (sat : List Nat → Bool) (fuel bb : Nat) (path : List Nat)
+    (acc : List (List Nat)) (cs : List (Option Nat × String)) (exe : List (List Nat)) :
+    Generated.searchPaths (TieS.graphOf g) sat fuel bb path acc cs exe =
+      (searchPaths g fuel bb path cs exe).map (fun ps => acc ++ ps.filter sat) :=
+  TieS.search_tie g hg sat fuel bb path acc cs exe
+
